@@ -181,13 +181,15 @@ def dict_to_path(data: dict, _type: Optional[str] = None, config: Optional[str] 
 
     debug(f"found: {path}")
 
-    # pathlib collapses "//" and "/./": an empty or "." value would silently vanish, and give the path of another Sid
+    # A value that stands for a whole folder name cannot be empty, "." or "..": pathlib collapses "//" and "/./" (the value would
+    # vanish and give the path of another Sid), and ".." names the parent folder (which exists without the Sid ever being created).
+    # Only the VALUES are looked at: the literal parts of the template (e.g. a root folder spelled with "..") are the configuration's.
+    for component in r.get_format_for(_type).split("/"):
+        if component.startswith("{") and component.endswith("}") and component.count("{") == 1:
+            if str(data.get(component[1:-1])) in ("", ".", ".."):
+                raise SpilException(f'The value "{data.get(component[1:-1])}" of "{component[1:-1]}" cannot be a folder name. Path: "{path}"')
+
     result = Path(path)
-    if result.as_posix() != path:
-        raise SpilException(f'Path "{path}" is not kept as is by pathlib ("{result.as_posix()}"): a value cannot be a folder name.')
-    # ".." is kept by pathlib, but names the parent folder (which exists without the Sid ever having been created)
-    if ".." in result.parts:
-        raise SpilException(f'Path "{path}" contains "..": a value cannot be a folder name.')
 
     return result
 
